@@ -44,6 +44,17 @@ CHECKS = {
    note="trusted: python bytes semantics as reference; results for negative/oversized positions are only required to be a BLOC error or a contiguous part "
         "of the input (manual is one line per builtin); known findings: num(str(d))/isnum(str(d)) for subnormal d",
    design="4/C10"),
+ "C06": dict(
+   technique="reference-interpreter monitor (python model of the documented loop/conditional semantics) over generated programs + post-run invariant hooks (control stack, symbol flags) + ASan/UBSan",
+   text="Loop headers are enumerated bounded-exhaustively (bounds in {-2..2, INT64_MIN..+2, INT64_MAX-2.., null} x steps {absent,1,2,3,0,-1,null,INT64_MAX} x "
+        "{auto,asc,desc}, with and without break) and loop-heavy random programs (nested for/forall/while/if/begin with break/continue/return/raise, "
+        "bodies that move the control variable, writes through forall iterators, nested traversal of one table, functions) are executed by the real "
+        "interpreter under a 20000-statement budget; marker trace, outcome, returned value and final variables must equal the reference interpreter's, "
+        "the control stack must be empty and no iterator constraint/table lock may remain (hooked dump), and a probe program must be able to retype "
+        "former iterators, extend formerly iterated tables and open new loops. Interruption by the budget is a violation (the model bounds every run).",
+   note="trusted: the python reference interpreter (documented behaviour only); not asserted: value of a for variable after its loop, decimal bounds, "
+        "precedence between 'null bound' and 'step < 1', a body moving the control variable against the direction of progression",
+   design="4/C06"),
  "C09": dict(
    technique="model-based runtime monitor: random container-operation sequences checked against a python list model + structural uniformity invariant on deep dumps + ASan/UBSan",
    text="Random sequences (8-25 steps) of at/put/insert/delete/concat/count on tables of integer, decimal, string, boolean, integer tables and "
